@@ -157,6 +157,8 @@ pub enum OutKind {
 pub struct Outcome {
     pub kind: OutKind,
     pub prints: Vec<String>,
+    /// number of syntax errors the library reported for this input (0 unless it failed to parse)
+    pub parse_errors: usize,
 }
 
 impl Outcome {
@@ -266,6 +268,7 @@ pub fn interpret_outcome(
     if let Some(n) = vm_fault {
         numbat::verif::arm(n);
     }
+    let mut n_parse_errors = 0usize;
     let r = trap(|| {
         match ctx.interpret_with_settings(&mut settings, text, source) {
             Ok((stmts, result)) => {
@@ -302,6 +305,9 @@ pub fn interpret_outcome(
             }
             Err(e) => {
                 let (stage, msg) = classify(&e);
+                if let NumbatError::ResolverError(ResolverError::ParseErrors(v)) = &*e {
+                    n_parse_errors = v.len();
+                }
                 OutKind::Err { stage, msg }
             }
         }
@@ -316,7 +322,11 @@ pub fn interpret_outcome(
         Ok(k) => k,
         Err(p) => OutKind::Panic(p),
     };
-    Outcome { kind, prints }
+    Outcome {
+        kind,
+        prints,
+        parse_errors: n_parse_errors,
+    }
 }
 
 impl Sess {
